@@ -36,20 +36,20 @@ def alphabet_cases(tier):
         f, u, ok = cat_tok.DATE_CLASSES[dn]
         c = cat_tok.mk(cat_tok.name(a, 1), cat_tok.name(h, 2), b'', f, u, *cat_tok.HATS[hat])
         tag = 'k%d/a%d/h%d/%s/%s' % (kl, a, h, dn, hat)
-        out.append(('btokCVCWrap', dict(c, privkey=d, tag=tag)))
+        out.append(('btok.CVCWrap', dict(c, privkey=d, tag=tag)))
         full = dict(c, pubkey=T.pubkey_of(d))
-        out.append(('btokCVCCheck', dict(full, tag=tag)))
+        out.append(('btok.CVCCheck', dict(full, tag=tag)))
         if ok and 8 <= a <= 12 and 8 <= h <= 12:
             cert, full = T.cvc_wrap(c, d)
-            out.append(('btokCVCUnwrap', dict(cert=cert, mode='none', tag=tag)))
-            out.append(('btokCVCUnwrap', dict(cert=cert, mode='self', tag=tag)))
-            out.append(('btokCVCUnwrap', dict(cert=cert, mode='key', pubkey=full['pubkey'], tag=tag)))
-            out.append(('btokCVCMatch', dict(cert=cert, privkey=d, tag=tag)))
+            out.append(('btok.CVCUnwrap', dict(cert=cert, mode='none', tag=tag)))
+            out.append(('btok.CVCUnwrap', dict(cert=cert, mode='self', tag=tag)))
+            out.append(('btok.CVCUnwrap', dict(cert=cert, mode='key', pubkey=full['pubkey'], tag=tag)))
+            out.append(('btok.CVCMatch', dict(cert=cert, privkey=d, tag=tag)))
         elif ok:
             # the encoded form of a name outside SIZE(8..12) is a format error
             cert = T.cvc_enc(full, T.tok_sign(T.cvc_body(full), d))
-            out.append(('btokCVCUnwrap', dict(cert=cert, mode='none', tag=tag)))
-            out.append(('btokCVCUnwrap', dict(cert=cert, mode='key', pubkey=full['pubkey'], tag=tag)))
+            out.append(('btok.CVCUnwrap', dict(cert=cert, mode='none', tag=tag)))
+            out.append(('btok.CVCUnwrap', dict(cert=cert, mode='key', pubkey=full['pubkey'], tag=tag)))
     lens = range(7, 14)
     for kl in cat_tok.KLENS:
         for a in lens:
@@ -135,7 +135,7 @@ def make_root(kl):
     n = Node()
     n.priv = cat_tok.privkey(kl, 0)
     c = cat_tok.mk(b'BYCA0000', b'BYCA0000', b'', cat_tok.D_FROM, cat_tok.D_UNTIL, *cat_tok.HATS['both'])
-    r = run_fn('btokCVCWrap', dict(c, privkey=n.priv))
+    r = run_fn('btok.CVCWrap', dict(c, privkey=n.priv))
     if r['ret']:
         raise RuntimeError('root certificate not created: %#x' % r['ret'])
     n.cert, n.cvc = r['cert'], r['cvc']
@@ -163,7 +163,7 @@ def make_node(parent, level, kl, variant):
     hat = ('eid', 'esign', 'none')[level % 3]
     n.req = cat_tok.mk(auth, cat_tok.name(8 + (level * 3 + kl) % 5, level), T.pubkey_of(n.priv), f, u, *cat_tok.HATS[hat])
     n.signer = {'right': parent.priv, 'wrong': cat_tok.privkey(len(parent.priv), 77), 'wronglen': cat_tok.privkey(other_len(len(parent.priv)), 78)}[kv]
-    r = run_fn('btokCVCWrap', dict(n.req, privkey=n.signer))
+    r = run_fn('btok.CVCWrap', dict(n.req, privkey=n.signer))
     if r['ret']:
         raise RuntimeError('certificate not created (%s): %#x' % (variant, r['ret']))
     n.cert, n.cvc = r['cert'], r['cvc']
@@ -182,16 +182,16 @@ def node_checks(parent, n, dates=True):
         if (ret == 0) != expect_ok:
             out.append((what, '%s returned %#x but the link %s (name %s, validity %s, signer %s)%s' % (
                 what, ret, 'lines up' if expect_ok else 'must be refused', n.variant[0], n.variant[1], n.variant[2], extra)))
-    r = run_fn('btokCVCVal', dict(cert=n.cert, certa=parent.cert, date=None)); calls += 1
+    r = run_fn('btok.CVCVal', dict(cert=n.cert, certa=parent.cert, date=None)); calls += 1
     verdict('btokCVCVal', r['ret'], want)
-    r = run_fn('btokCVCVal2', dict(cert=n.cert, certa=parent.cert, date=None, want=1)); calls += 2
+    r = run_fn('btok.CVCVal2', dict(cert=n.cert, certa=parent.cert, date=None, want=1)); calls += 2
     verdict('btokCVCVal2', r['ret'], want)
     if r['ret'] == 0 and r.get('cvc') != n.cvc:
         out.append(('btokCVCVal2:content', 'btokCVCVal2 accepted the certificate but returned another content than btokCVCWrap recorded'))
-    r = run_fn('btokCVCVal2', dict(cert=n.cert, certa=parent.cert, date=None, want=0)); calls += 2
+    r = run_fn('btok.CVCVal2', dict(cert=n.cert, certa=parent.cert, date=None, want=0)); calls += 2
     verdict('btokCVCVal2(cvc=0)', r['ret'], want)
     # issuing: the same rules, decided before signing; the issued certificate is the one btokCVCWrap makes
-    r = run_fn('btokCVCIss', dict(n.req, certa=parent.cert, privkeya=n.signer)); calls += 2
+    r = run_fn('btok.CVCIss', dict(n.req, certa=parent.cert, privkeya=n.signer)); calls += 2
     verdict('btokCVCIss', r['ret'], want)
     if r['ret'] == 0 and r['cert'] != n.cert:
         out.append(('btokCVCIss:cert', 'btokCVCIss issued another certificate than btokCVCWrap under the same key'))
@@ -200,7 +200,7 @@ def node_checks(parent, n, dates=True):
         for what, d, inside in (('date=from', f, True), ('date=until', u, True), ('date=from-1', shift(f, -1), False), ('date=until+1', shift(u, 1), False),
                                 ('date=month13', bytes([f[0], f[1], 1, 3, 0, 1]), False), ('date=Feb30', bytes([f[0], f[1], 0, 2, 3, 0]), False)):
             for fn in ('btokCVCVal', 'btokCVCVal2'):
-                r = run_fn(fn, dict(cert=n.cert, certa=parent.cert, date=d, want=1)); calls += 1
+                r = run_fn(fn.replace('btokCVC', 'btok.CVC'), dict(cert=n.cert, certa=parent.cert, date=d, want=1)); calls += 1
                 verdict('%s(%s)' % (fn, what), r['ret'], want and inside, ' at check date %s' % d.hex())
     return out, calls
 
@@ -211,7 +211,7 @@ def chain_job(job):
     viol = []
     stats = [0, 0, 0]
     root = make_root(kls[0])
-    r = run_fn('btokCVCUnwrap', dict(cert=root.cert, mode='self'))
+    r = run_fn('btok.CVCUnwrap', dict(cert=root.cert, mode='self'))
     if r['ret'] or r['cvc'] != root.cvc:
         viol.append(('chain:root', {'cfg': CFG, 'kind': 'chain', 'kls': list(kls), 'path': []}, 'self-signed root does not parse back: %#x' % r['ret']))
     def rec(parent, level, path, chain_ok):
@@ -262,7 +262,7 @@ def replay_chain(rec):
     kls = rec['kls']
     parent = make_root(kls[0])
     if not rec['path']:
-        r = run_fn('btokCVCUnwrap', dict(cert=parent.cert, mode='self'))
+        r = run_fn('btok.CVCUnwrap', dict(cert=parent.cert, mode='self'))
         return None if r['ret'] == 0 and r['cvc'] == parent.cvc else 'self-signed root does not parse back: %#x' % r['ret']
     n = None
     for level, v in enumerate(rec['path'], 1):
@@ -295,11 +295,11 @@ def same_content(a, b):
 def tamper_cert(item):
     """one certificate x one mask: every octet altered -> list of (key, j, message)"""
     label, cert, certa, mask = item
-    base = run_fn('btokCVCUnwrap', dict(cert=cert, mode='none'))
+    base = run_fn('btok.CVCUnwrap', dict(cert=cert, mode='none'))
     if base['ret']:
         return [('certtamper:base', -1, 'reference certificate %s does not parse: %#x' % (label, base['ret']))], 0, {}
     orig = cat_tok.cvc_parse(base['cvc'])
-    ca_pub = orig['pubkey'] if certa is None else cat_tok.cvc_parse(run_fn('btokCVCUnwrap', dict(cert=certa, mode='none'))['cvc'])['pubkey']
+    ca_pub = orig['pubkey'] if certa is None else cat_tok.cvc_parse(run_fn('btok.CVCUnwrap', dict(cert=certa, mode='none'))['cvc'])['pubkey']
     out = []
     calls = 0
     oc = {}
@@ -307,7 +307,7 @@ def tamper_cert(item):
         x = bytearray(cert); x[j] ^= mask; x = bytes(x)
         where = T.der_path(cert, j)
         # (1) without a key: an error, or another content
-        r = run_fn('btokCVCUnwrap', dict(cert=x, mode='none')); calls += 1
+        r = run_fn('btok.CVCUnwrap', dict(cert=x, mode='none')); calls += 1
         k = 'nokey ret=%#x' % r['ret']
         if r['ret'] == 0:
             same = same_content(cat_tok.cvc_parse(r['cvc']), orig)
@@ -316,22 +316,22 @@ def tamper_cert(item):
                 out.append(('certtamper:unbound-octet:nokey', j, 'octet %d (%s) ^ %#04x of certificate %s is ignored: btokCVCUnwrap(no key) returns the same content' % (j, where, mask, label)))
         oc[k] = oc.get(k, 0) + 1
         # (2) under the signer's key: always an error
-        r = run_fn('btokCVCUnwrap', dict(cert=x, mode='key', pubkey=ca_pub)); calls += 1
+        r = run_fn('btok.CVCUnwrap', dict(cert=x, mode='key', pubkey=ca_pub)); calls += 1
         oc['key ret=%#x' % r['ret']] = oc.get('key ret=%#x' % r['ret'], 0) + 1
         if r['ret'] == 0:
             same = same_content(cat_tok.cvc_parse(r['cvc']), orig)
             out.append(('certtamper:%s:key' % ('unbound-octet' if same else 'forgery'), j, 'octet %d (%s) ^ %#04x of certificate %s: btokCVCUnwrap under the signer key accepts it (%s content)' % (
                 j, where, mask, label, 'same' if same else 'ANOTHER')))
         if certa is None:
-            r = run_fn('btokCVCUnwrap', dict(cert=x, mode='self')); calls += 1
+            r = run_fn('btok.CVCUnwrap', dict(cert=x, mode='self')); calls += 1
             if r['ret'] == 0 and j < len(cert):
                 c2 = cat_tok.cvc_parse(r['cvc'])
                 out.append(('certtamper:self', j, 'octet %d (%s) ^ %#04x of self-signed %s accepted on its own key (%s content)' % (j, where, mask, label, 'same' if same_content(c2, orig) else 'another')))
         else:
-            r = run_fn('btokCVCVal', dict(cert=x, certa=certa, date=None)); calls += 1
+            r = run_fn('btok.CVCVal', dict(cert=x, certa=certa, date=None)); calls += 1
             if r['ret'] == 0:
                 out.append(('certtamper:val', j, 'octet %d (%s) ^ %#04x of %s: btokCVCVal accepts the altered certificate' % (j, where, mask, label)))
-            r = run_fn('btokCVCVal2', dict(cert=x, certa=certa, date=None, want=1)); calls += 2
+            r = run_fn('btok.CVCVal2', dict(cert=x, certa=certa, date=None, want=1)); calls += 2
             if r['ret'] == 0:
                 out.append(('certtamper:val2', j, 'octet %d (%s) ^ %#04x of %s: btokCVCVal2 accepts the altered certificate' % (j, where, mask, label)))
     return out[:12], calls, oc
